@@ -159,4 +159,92 @@ theorem MRootTail_promote_rsOf_partial (hT : legalThreshold T = true) (Q' : (d :
 
 end promote
 
+/-! ### the invariant of the new root (model values only): `MQ` with the root flag SET -/
+
+section newRoot
+variable {r : Nat} {T : Nat} {D : DigestFn (r + 1)}
+
+/-- `MQ` for a handle root: as `MQ`, with `SInv .. true` (the root flag is set) -/
+def MQtop (T : Nat) (D : DigestFn (r + 1)) (d : Nat) (t : MTree r d) : Prop :=
+  SInv T D d true t ∧ (MTree.hdr d t).size ≤ maxThr T + slack T d ∧ ∀ x ∈ MTree.digests0 d t, x < 2^64
+
+/-- the new root of `promoteIfSingleChild`, a data slab child -/
+theorem mtp_newRoot_zero (hT : legalThreshold T = true) (child : MDataSlab r) (rid : SlabID)
+    (hinv : MDataInv T D false child) (hdig : ∀ x ∈ child.elems.hkeys, x < 2^64) :
+    MQtop (r := r) T D 0 (MTree.setRoot 0 (MTree.setId 0 (({ child with hdr := { child.hdr with
+      size := child.hdr.size - Gen.mapDataSlabPrefixSize + Gen.mapRootDataSlabPrefixSize } } : MDataSlab r) :
+      MTree r 0) rid) true) := by
+  have hl := hinv.loose
+  have hpre := hl.prefix_nontop
+  have hse := hl.size_eq
+  have hinl : child.inlined = false := by
+    cases hi : child.inlined with
+    | false => rfl
+    | true => have := hl.inl_root hi; cases this
+  have hmax := hinv.le_max
+  rw [hpre] at hse
+  refine ⟨⟨hl.elems_inv, ?_, hl.first_eq, rfl, fun _ => rfl⟩, ?_, hdig⟩
+  · show child.hdr.size - Gen.mapDataSlabPrefixSize + Gen.mapRootDataSlabPrefixSize = _ + child.elems.size
+    simp only [MDataSlab.prefixSize, MTree.setRoot, MTree.setId, hinl, Bool.false_eq_true, if_false, if_true]
+    simp only [Gen.mapDataSlabPrefixSize, Gen.mapRootDataSlabPrefixSize] at hse ⊢
+    omega
+  · show child.hdr.size - Gen.mapDataSlabPrefixSize + Gen.mapRootDataSlabPrefixSize ≤ _
+    simp only [Gen.mapDataSlabPrefixSize, Gen.mapRootDataSlabPrefixSize] at hse ⊢
+    omega
+
+/-- the new root of `promoteIfSingleChild`, an index slab child whose identifier's address is the new identifier's -/
+theorem mtp_newRoot_succ (hT : legalThreshold T = true) (d : Nat) (child : MMetaSlab (MTree r d)) (rid : SlabID)
+    (hinv : MTreeInv T D (d + 1) false child) (haddr : child.hdr.id.addr = rid.addr)
+    (hdig : ∀ x ∈ MTree.digests0 (d + 1) child, x < 2^64) :
+    MQtop (r := r) T D (d + 1) (MTree.setRoot (d + 1) (MTree.setId (d + 1) child rid) true) := by
+  obtain ⟨hl, hmax, hmin, _⟩ := (mtreeInv_succ_iff T D d false child).mp hinv
+  obtain ⟨_, h2, h3, h4, h5, h6, h7, h8⟩ := hl
+  have hm := hmin rfl
+  have ht := thresholds_fit hT
+  refine ⟨⟨⟨rfl, h2, h3, h4, h5, fun c hc => (h6 c hc).trans haddr, h7, h8⟩, ?_⟩, ?_, hdig⟩
+  · show 1 ≤ child.children.length
+    simp only [Gen.mapMetaDataSlabPrefixSize, Gen.mapSlabHeaderSize] at h3
+    omega
+  · show child.hdr.size ≤ _
+    omega
+
+/-- **the `promote` field for `rs := rsOf T`**: premise `mds_RootPre (MQ T D)` as in `MRootTail`, conclusion with the
+    root-flag-SET invariant `MQtop T D` of the new root - no hypothesis left -/
+theorem MRootTail_promote_rsOf_top (hT : legalThreshold T = true) :
+    ∀ (addr d : Nat) (xr : MMetaSlab (MTree r d)) (ty cnt seed : Nat) (h : MHdr) (s1 : MHSt r) (x0 : Option DX),
+    xr.childHdrs = [h] → xr.childHdrs = xr.children.map (MTree.hdr d) →
+    mds_RootPre (MQ T D) addr s1 ⟨d + 1, xr, ty, cnt, seed⟩ x0 →
+    ∃ s2, (rsOf T).promote (md_map ⟨d + 1, xr, ty, cnt, seed⟩ s1) h.id =
+        (none, md_map (OMap.promoteIfSingleChild ⟨d + 1, xr, ty, cnt, seed⟩ s1.ctx).1 s2) ∧
+      s2.ctx = (OMap.promoteIfSingleChild ⟨d + 1, xr, ty, cnt, seed⟩ s1.ctx).2 ∧ s2.popped = s1.popped ∧
+      mds_RootPre (MQtop T D) addr s2 (OMap.promoteIfSingleChild ⟨d + 1, xr, ty, cnt, seed⟩ s1.ctx).1
+        (some (md_extra (OMap.promoteIfSingleChild ⟨d + 1, xr, ty, cnt, seed⟩ s1.ctx).1)) ∧
+      mds_Delta s1.heap s2.heap (md_ids (d + 1) xr)
+        (md_ids _ (OMap.promoteIfSingleChild ⟨d + 1, xr, ty, cnt, seed⟩ s1.ctx).1.root) := by
+  intro addr d xr ty cnt seed h s1 x0 hh hmap hpre
+  refine MRootTail_promote_rsOf_partial hT (MQtop T D) addr d xr ty cnt seed h s1 x0 hh hmap hpre ?_
+  obtain ⟨mh, mchs, mcs, mroot⟩ := xr
+  simp only at hh hmap
+  subst hh
+  obtain ⟨child, hc, hhd⟩ : ∃ child, mcs = [child] ∧ MTree.hdr d child = h := by
+    cases mcs with
+    | nil => cases hmap
+    | cons c cs =>
+      cases cs with
+      | nil => exact ⟨c, rfl, by simpa using hmap.symm⟩
+      | cons c' cs' => simp at hmap
+  subst hc
+  have hmq : MQ T D (d + 1) (⟨mh, [h], [child], mroot⟩ : MMetaSlab (MTree r d)) := hpre.inv
+  have hloose : MetaLoose T D d false (⟨mh, [h], [child], mroot⟩ : MMetaSlab (MTree r d)) := hmq.1.1
+  have hci : MTreeInv T D d false child := hloose.2.2.2.2.1 child List.mem_cons_self
+  have hca : (MTree.hdr d child).id.addr = mh.id.addr := hloose.2.2.2.2.2.1 child List.mem_cons_self
+  have hdig : ∀ x ∈ MTree.digests0 d child, x < 2^64 := fun x hx => hmq.2.2 x (by
+    show x ∈ [child].flatMap (MTree.digests0 d)
+    simpa using hx)
+  cases d with
+  | zero => exact mtp_newRoot_zero hT child mh.id ((mtreeInv_zero_iff T D false child).mp hci) hdig
+  | succ d => exact mtp_newRoot_succ hT d child mh.id hci hca hdig
+
+end newRoot
+
 end Atree.TransEq
